@@ -173,6 +173,15 @@ def generate(rng, tier, focus):
             observers()
     if rng.random() < 0.5:
         failing()
+    if order and rng.random() < 0.3:
+        # a SECOND System on the same file, its topologies loaded in another order, built somewhere in the middle of the
+        # history and kept alive: what one system reports must not depend on the other's existence
+        perm = list(order)
+        rng.shuffle(perm)
+        pos_ = rng.randint(0, len(ops))
+        ops.insert(pos_, {"op": "second_system", "order": perm[:rng.randint(1, len(perm))]})
+        ops.append({"op": "observe_all"})
+        ops.append({"op": "observe_second"})
     ops.append({"op": "observe_all"})
     first = order[:rng.randint(0, len(order))] if rng.random() < 0.3 else []
     return {"species": species, "text": text, "instances": instances, "ctor_loads": first, "ops": ops}
@@ -284,15 +293,21 @@ def execute(trace, ctx):
         ctx.violate(P, "construct-raised", f"System(file, {len(loaded)} topologies) raised {type(e).__name__}: {e}")
         return
     ctx.op("construct", str(len(loaded)))
+    main_system = system
 
-    def expected():
-        return [inst for inst in trace["instances"] if inst["species"] in loaded]
+    def expected(ld=None):
+        ld = loaded if ld is None else ld
+        return [inst for inst in trace["instances"] if inst["species"] in ld]
 
-    def observe_all(label):
-        exp = expected()
+    others = []      # [(System, species it has loaded)]
+
+    def observe_all(label, system=None, ld=None):
+        system = main_system if system is None else system
+        ld_ = loaded if ld is None else ld
+        exp = expected(ld_)
         n = len(exp)
         if len(system) != n:
-            ctx.violate(P, "length", f"{label}: len = {len(system)}, expected {n} instances of the loaded species {sorted(loaded)}")
+            ctx.violate(P, "length", f"{label}: len = {len(system)}, expected {n} instances of the loaded species {sorted(ld_)}")
             return False
         comp = dict(system.composition)
         want = dict(Counter(species[i["species"]]["name"] for i in exp))
@@ -354,7 +369,21 @@ def execute(trace, ctx):
         n = len(exp)
         try:
             if kind == "observe_all":
-                observe_all(f"after loading {loaded}")
+                observe_all(f"after loading {loaded}" + (" (a second System exists)" if others else ""))
+                ctx.op(kind)
+            elif kind == "second_system":
+                try:
+                    s2 = System(fgro, *[itps[k_] for k_ in op["order"]])
+                except Exception as e:
+                    ctx.violate(P, "construct-raised", f"a second System on the same file (topologies {op['order']}) raised "
+                                                       f"{type(e).__name__}: {e}")
+                    return
+                others.append((s2, list(op["order"])))
+                ctx.probe("second_system_on_the_same_file")
+                ctx.op(kind)
+            elif kind == "observe_second":
+                for s2, ld2 in others:
+                    observe_all(f"second System (loaded {ld2})", system=s2, ld=ld2)
                 ctx.op(kind)
             elif kind == "iterate":
                 got = list(system)
